@@ -632,42 +632,62 @@ class Sched:
 
 class LineTracer:
     """Counts traced lines of package frames in the current thread; can raise
-    SimInterrupt at the k-th line; records the innermost package frame of
-    the interruption point."""
+    SimInterrupt at the k-th line, or at the first visit of the j-th distinct
+    source location; records the innermost package frame of the
+    interruption point."""
 
     def __init__(self, pkg_prefix):
         self.prefix = pkg_prefix
         self.count = 0
         self.int_at = None
+        self.loc_at = None
+        self.nloc = 0
+        self.seen = None
         self.fired = None
         self.digest = 0
         from sim.boot import with_lines
         wl = with_lines()
 
+        def fire(frame):
+            code = frame.f_code
+            stack = []
+            f = frame
+            while f is not None and len(stack) < 40:
+                if f.f_code.co_filename.startswith(self.prefix):
+                    stack.append(
+                        f.f_code.co_filename[len(self.prefix):]
+                        + ':' + f.f_code.co_name)
+                f = f.f_back
+            self.fired = {'file': code.co_filename[len(self.prefix):],
+                          'func': code.co_name,
+                          'line': frame.f_lineno,
+                          'stack': stack}
+            raise SimInterrupt('injected at line %d' % self.count)
+
         def local(frame, event, arg):
             if event == 'line':
                 self.count += 1
-                self.digest = (self.digest * 1000003 + frame.f_lineno
+                ln = frame.f_lineno
+                self.digest = (self.digest * 1000003 + ln
                                ) & 0xFFFFFFFFFFFFFFFF
-                if self.count == self.int_at and frame.f_lineno in wl.get(
-                        frame.f_code.co_filename, ()):
-                    self.int_at += 1            # see boot.with_lines()
-                elif self.count == self.int_at:
-                    self.int_at = None
-                    code = frame.f_code
-                    stack = []
-                    f = frame
-                    while f is not None and len(stack) < 40:
-                        if f.f_code.co_filename.startswith(self.prefix):
-                            stack.append(
-                                f.f_code.co_filename[len(self.prefix):]
-                                + ':' + f.f_code.co_name)
-                        f = f.f_back
-                    self.fired = {'file': code.co_filename[len(self.prefix):],
-                                  'func': code.co_name,
-                                  'line': frame.f_lineno,
-                                  'stack': stack}
-                    raise SimInterrupt('injected at line %d' % self.count)
+                if self.seen is not None:
+                    k = (frame.f_code.co_filename, ln)
+                    if k not in self.seen:
+                        self.seen.add(k)
+                        self.nloc += 1
+                        if self.loc_at is not None and \
+                                self.nloc >= self.loc_at:
+                            if ln in wl.get(frame.f_code.co_filename, ()):
+                                pass        # see boot.with_lines(): defer
+                            else:
+                                self.loc_at = None
+                                fire(frame)
+                if self.count == self.int_at:
+                    if ln in wl.get(frame.f_code.co_filename, ()):
+                        self.int_at += 1        # see boot.with_lines()
+                    else:
+                        self.int_at = None
+                        fire(frame)
             return local
 
         def glob(frame, event, arg):
@@ -677,9 +697,12 @@ class LineTracer:
             return None
         self.glob = glob
 
-    def arm(self, int_at=None):
+    def arm(self, int_at=None, loc_at=None, count_locs=False):
         self.count = 0
         self.int_at = int_at
+        self.loc_at = loc_at
+        self.nloc = 0
+        self.seen = set() if (loc_at is not None or count_locs) else None
         self.fired = None
         sys.settrace(self.glob)
 
